@@ -31,7 +31,8 @@ Fixpoint fp_of (t : list (bytes * N)) (k : bytes) : N :=
 Definition err_eqb (a b : err) : bool :=
   match a, b with
   | EConflict, EConflict | ETooBig, ETooBig | EBlocked, EBlocked | EReadOnly, EReadOnly
-  | EDiscarded, EDiscarded | ECommitDiscarded, ECommitDiscarded | EBadOp, EBadOp | EHang, EHang => true
+  | EDiscarded, EDiscarded | ECommitDiscarded, ECommitDiscarded | EBadOp, EBadOp | EHang, EHang
+  | EApply, EApply => true
   | _, _ => false
   end.
 
@@ -114,6 +115,7 @@ Definition C (id : N) (r : obs) := (Commit id, r).
 Definition X (id : N) := (Discard id, RNil).
 Definition Cl := (Close, RNil).
 Definition Ro := (Reopen, RNil).
+Definition Fw := (FailWal, RNil).
 Definition Du (k : string) (l : list (N * option bytes)) := (Dump (unhex k), RDump l).
 Definition Vl (s : string) : obs := RVal (Some (unhex s)).
 Definition Nf : obs := RVal None.
